@@ -573,6 +573,13 @@ impl Session {
         (self.reserved, self.expired, self.msg_ctr)
     }
 
+    /// Place the transmit message counter (a session starts at a random 28-bit value; the
+    /// verification harness starts some right below the values where the width matters).
+    #[cfg(feature = "verif")]
+    pub fn verif_set_tx_ctr(&mut self, ctr: u32) {
+        self.msg_ctr = ctr;
+    }
+
     /// Per exchange slot: `None` if free, else `(exchange id, is initiator role, dropped state,
     /// accept pending, retransmission pending, acknowledgement pending)`.
     #[cfg(feature = "verif")]
